@@ -208,10 +208,27 @@ func runValue(c *core.Case, e *entry, g *gen) {
 	if why != "" {
 		smp.Canonical = "no: " + why
 	}
-	checkValue(c, e, v, why, smp)
+	enc, ok := checkValue(c, e, v, why, smp)
+	if !ok || e.fresh == nil {
+		return
+	}
+	// ---- the R/F decode step again, into a target that already holds another
+	// value of the type
+	var w any
+	if guard(c, e.name, "generate", func() { w = e.gen(g) }) {
+		return
+	}
+	other := firstGoodEncoding(w)
+	if len(other) == 0 {
+		return
+	}
+	smp.Encodings["other value (decoded first into the reused target)"] = qb(other)
+	reuseCheck(c, e, "UnmarshalXML(encoding)", other, enc)
 }
 
-func checkValue(c *core.Case, e *entry, v any, why string, smp *valueSample) {
+// checkValue returns the first well-formed encoding and whether the value
+// decoded from it.
+func checkValue(c *core.Case, e *entry, v any, why string, smp *valueSample) (firstEnc []byte, decodedOK bool) {
 	typ := e.name
 	c.Count("values", 1)
 	c.Count("values:"+typ, 1)
@@ -361,6 +378,7 @@ func checkValue(c *core.Case, e *entry, v any, why string, smp *valueSample) {
 		return
 	}
 	c.Count("decoded:"+typ, 1)
+	firstEnc, decodedOK = good[0].B, true
 	if why == "" {
 		c.Count("law_R_checked", 1)
 		a, b := v, v1
@@ -407,6 +425,7 @@ func checkValue(c *core.Case, e *entry, v any, why string, smp *valueSample) {
 	if d, _ := e.compare(v1, v2, false); d != nil {
 		violate(c, "codec:F:"+typ+":"+d.Field, "decoded value is not a fixpoint: %s\nfirst: %s\nsecond: %s", d.Detail, qb(good[0].B), qb(b2.B))
 	}
+	return
 }
 
 // duplicateAttr returns the qualified name of an attribute that occurs twice
